@@ -13,7 +13,10 @@ impl LintPass for GarbageInputValueCheck {
         for node in cfg {
             if node.is_program_entry() {
                 // get registers
-                let garbage = node.live_in() - Register::program_args_set();
+                // The environment defines the stack pointer and the return
+                // address before the program starts
+                let garbage =
+                    node.live_in() - Register::program_args_set() - Register::sp_ra_set();
                 if !garbage.is_empty() {
                     let mut ranges = Vec::new();
                     for reg in &garbage {
